@@ -1,10 +1,12 @@
 import XmlRsModel.Dom
 import XmlRsModel.Thm.C13
+import XmlRsModel.Lemmas.DataValid
 /-! Property C15: edits that succeed keep the document serializable and faithful.
     The library validates supplied data by re-parsing a fragment with its own grammar productions; the
     model's validity predicates ARE those productions (`Dom.validText` = production `char_data` of the
     grammar generated from the source, and so on), so they change when the source changes.  Proved:
-    what `char_data` accepts, in closed form; every data edit stores only data that passed the
+    what `char_data`, `cdsect` and `comment` accept, in closed form (for comments: exactly production [15] of
+    the Recommendation, and that production in words); every data edit stores only data that passed the
     predicate for the node's kind — computed on the OUTCOME of the edit, so a forbidden sequence that
     only arises from combining harmless pieces is refused too; a refused edit changes nothing. -/
 namespace XmlRs.C15
@@ -73,6 +75,119 @@ theorem validText_iff (s : Str) :
         have := splitAtSub_snd_ne_nil _ (by decide) _ a b hs
         simp at hr; exact absurd hr.1 this
       | cons x xs => simp [hr]
+
+/-- CDATA section data the library accepts, in closed form: every character is a Char and "]]>" does not occur -/
+theorem validCData_iff (s : Str) : validCData s = (s.all P.isChar && !hasSub [']', ']', '>'] s) := by
+  have e0 : "<![CDATA[".toList = [Char.ofNat 60,Char.ofNat 33,Char.ofNat 91,Char.ofNat 67,Char.ofNat 68,Char.ofNat 65,Char.ofNat 84,Char.ofNat 65,Char.ofNat 91] := by decide +kernel
+  have e1 : [Char.ofNat 93, Char.ofNat 93, Char.ofNat 62] = suf := by decide +kernel
+  have e2 : "]]>".toList = suf := by decide +kernel
+  simp only [validCData, fullMatch]
+  generalize hF : 100000 + 64 * ("<![CDATA[".toList ++ s ++ "]]>".toList).length = F
+  obtain ⟨f, rfl⟩ : ∃ f, F = f + 3 := ⟨F - 3, by omega⟩
+  simp only [run, env_cdsect, Prod.cdsect, runSeq, e0, e1, e2, List.append_assoc, stripPrefix_append]
+  have key := until_suf_key s
+  cases hs : stripPrefix suf (runUntil0 P.isChar suf (s ++ suf)).2 with
+  | none =>
+    have : ¬ (s.all P.isChar = true ∧ hasSub suf s = false) := fun h => by simp [key.2 h] at hs
+    simp only [hs]
+    cases h1 : s.all P.isChar <;> cases h2 : hasSub suf s <;> simp_all
+  | some r =>
+    cases r with
+    | nil =>
+      obtain ⟨h1, h2⟩ := key.1 hs
+      simp [hs, h1, h2]
+    | cons x xs =>
+      have : ¬ (s.all P.isChar = true ∧ hasSub suf s = false) := fun h => by simp [key.2 h] at hs
+      simp only [hs]
+      cases h1 : s.all P.isChar <;> cases h2 : hasSub suf s <;> simp_all
+
+
+
+/-- comment data the library accepts = production [15] of XML 1.0 -/
+theorem validComment_iff (s : Str) : validComment s = isCommentBody s := by
+  have e0 : "<!--".toList = [Char.ofNat 60,Char.ofNat 33,Char.ofNat 45,Char.ofNat 45] := by decide +kernel
+  have e1 : [Char.ofNat 45,Char.ofNat 45,Char.ofNat 62] = dashEnd := by decide +kernel
+  have e2 : "-->".toList = dashEnd := by decide +kernel
+  simp only [validComment, fullMatch]
+  generalize hF : 100000 + 64 * ("<!--".toList ++ s ++ "-->".toList).length = F
+  have hlen : s.length + 5 + 3 ≤ F := by
+    rw [← hF]; simp only [List.length_append]; omega
+  obtain ⟨f, rfl⟩ : ∃ f, F = f + 3 := ⟨F - 3, by omega⟩
+  obtain ⟨ks, t', h1, h2⟩ := loop s.length s (Nat.le_refl _) f (by omega)
+  simp only [run, env_comment, Prod.comment, runSeq, e0, e1, e2, List.append_assoc, stripPrefix_append, gC_eq, h1]
+  cases t' with
+  | nil =>
+    have := h2.1 rfl
+    simp [this, dashEnd, stripPrefix]
+  | cons x xs =>
+    have hb : isCommentBody s = false := by
+      cases h : isCommentBody s with
+      | false => rfl
+      | true => exact absurd (h2.2 h) (by simp)
+    rw [hb]
+    cases hs : stripPrefix dashEnd (x :: xs ++ dashEnd) with
+    | none => simp [hs]
+    | some r =>
+      have := congrArg List.length (stripPrefix_some hs)
+      simp only [List.length_append, List.length_cons] at this
+      cases r with
+      | nil => simp at this
+      | cons y ys => simp [hs]
+
+
+
+/-- production [15] in words: only Chars, no "--" inside, no '-' at the end (which would make "--->") -/
+theorem commentBody_closed (s : Str) :
+    isCommentBody s = (s.all P.isChar && !hasSub ['-', '-'] s && !(s.getLast? == some '-')) := by
+  fun_induction isCommentBody s with
+  | case1 => decide
+  | case2 => decide
+  | case3 d r ih =>
+    rw [ih, hasSub_dd_cons '-' (d :: r), hasSub_dd_cons d r]
+    simp only [List.all_cons, isChar_dash, List.head?_cons, List.getLast?_cons_cons]
+    by_cases hd : d = '-'
+    · subst hd; simp
+    · cases r with
+      | nil => simp [hd, hasSub, splitAtSub, bne]
+      | cons e r' =>
+        have hb : (d == '-') = false := by simpa using hd
+        simp [hd, List.getLast?_cons_cons, bne]
+        simp only [hb, dd]
+        generalize P.isChar d = a
+        generalize P.isChar e = b
+        generalize r'.all P.isChar = c
+        generalize hasSub ['-', '-'] (e :: r') = x
+        generalize ((e :: r').getLast? == some '-') = y
+        cases a <;> cases b <;> cases c <;> cases x <;> cases y <;> simp
+  | case4 c r h1 h2 ih =>
+    have hc : ¬ c = '-' := by
+      intro e
+      cases r with
+      | nil => exact h1 e rfl
+      | cons d r1 => exact h2 d r1 e rfl
+    have hb : (c == '-') = false := by simpa using hc
+    rw [ih, hasSub_dd_cons c r]
+    cases r with
+    | nil => simp [hb, hasSub, splitAtSub]
+    | cons e r' =>
+      simp [hc, hb, List.getLast?_cons_cons]
+      simp only [dd]
+      generalize P.isChar c = a
+      generalize P.isChar e = b
+      generalize r'.all P.isChar = c
+      generalize hasSub ['-', '-'] (e :: r') = x
+      generalize ((e :: r').getLast? == some '-') = y
+      cases a <;> cases b <;> cases c <;> cases x <;> cases y <;> simp [hc]
+
+/-- comment data the library accepts, in words -/
+theorem validComment_closed (s : Str) :
+    validComment s = (s.all P.isChar && !hasSub ['-', '-'] s && !(s.getLast? == some '-')) := by
+  rw [validComment_iff, commentBody_closed]
+
+example : validCData ['a', ']', ']'] = true ∧ validCData ['a', ']', ']', '>', 'b'] = false := by
+  rw [validCData_iff, validCData_iff]; decide
+example : validComment ['a', '-', 'b'] = true ∧ validComment ['a', '-', '-', 'b'] = false ∧ validComment ['a', '-'] = false := by
+  rw [validComment_closed, validComment_closed, validComment_closed]; decide
 
 /-- a data edit that succeeds stores data that passed the validity predicate of the node's kind,
     evaluated on the OUTCOME of the edit (insert / delete / replace / set / append alike) -/
